@@ -1,6 +1,7 @@
 package c19
 
 import (
+	"crypto/sha1"
 	"fmt"
 	"regexp"
 	"strings"
@@ -16,7 +17,31 @@ import (
 // ---------------------------------------------------------------------------------------------
 // M0: the saved package (same judgement as C01.P1-P4)
 
-func checkPackage(res *kit.Result, b []byte, where string) {
+// wfCheck is xmlwf.Check memoised on the part's bytes: styles, settings and the other constant parts are
+// byte-identical in every converted document, only word/document.xml (and numbering/footnotes) vary.
+var wfSeen = map[[20]byte]error{}
+
+func wfCheck(b []byte) error {
+	h := sha1.Sum(b)
+	if err, ok := wfSeen[h]; ok {
+		return err
+	}
+	err := xmlwf.Check(b)
+	if len(wfSeen) < 4096 {
+		wfSeen[h] = err
+	}
+	return err
+}
+
+// sampleConstant: word/styles.xml does not depend on the Markdown input at all (the converter only refers to
+// style ids; the part is written from the built-in style set, in map order, so it is not byte-identical and the
+// memo above cannot help) and costs half of a small case. In the quick tier it is parsed for every fourth case,
+// chosen by a hash of the input; in the thorough tier for every case. All other parts are always parsed.
+func sampleConstant(src []byte) bool {
+	return kit.Tier == "thorough" || sha1.Sum(src)[0]%4 == 0
+}
+
+func checkPackage(res *kit.Result, b []byte, where string, withStyles bool) {
 	const cl = "C19.M0"
 	pkg, err := opc.Read(b)
 	if err != nil {
@@ -30,8 +55,12 @@ func checkPackage(res *kit.Result, b []byte, where string) {
 		if strings.HasSuffix(name, "/") {
 			continue
 		}
+		if name == "word/styles.xml" && !withStyles {
+			res.Count("styles_part_not_parsed", 1)
+			continue
+		}
 		if pkg.IsXMLPart(name) {
-			if err := xmlwf.Check(pkg.Parts[name]); err != nil {
+			if err := wfCheck(pkg.Parts[name]); err != nil {
 				res.Fail(cl, "%s: part %q is not well-formed: %v", where, name, err)
 			}
 		}
@@ -87,6 +116,20 @@ var headingRe = regexp.MustCompile(`^Heading([1-9])$`)
 var monoFonts = map[string]bool{"consolas": true, "courier new": true, "courier": true, "monaco": true, "menlo": true,
 	"lucida console": true, "dejavu sans mono": true, "source code pro": true, "monospace": true, "cascadia code": true, "cascadia mono": true}
 
+// isMono: the font name is one of the usual fixed-pitch faces or says so itself
+func isMono(name string) bool {
+	n := strings.ToLower(strings.TrimSpace(name))
+	if monoFonts[n] {
+		return true
+	}
+	for _, w := range []string{"mono", "courier", "consol", "code", "typewriter", "terminal", "fixed"} {
+		if strings.Contains(n, w) {
+			return true
+		}
+	}
+	return false
+}
+
 func runFlags(p *document.RunProperties) uint8 {
 	var f uint8
 	if p == nil {
@@ -103,7 +146,7 @@ func runFlags(p *document.RunProperties) uint8 {
 	}
 	if ff := p.FontFamily; ff != nil {
 		for _, n := range []string{ff.ASCII, ff.HAnsi, ff.EastAsia, ff.CS} {
-			if monoFonts[strings.ToLower(strings.TrimSpace(n))] {
+			if isMono(n) {
 				f |= fC
 			}
 		}
@@ -269,19 +312,23 @@ func normAlign(s string) string {
 func judge(res *kit.Result, exp []xblk, act []ablk, tablesOff bool) {
 	// ---- M1: same visible text, white space aside
 	res.Eval("C19.M1")
-	var esb strings.Builder
-	var offs []int // start offset (in bytes) of each expected block in the concatenation
+	var units []string // expected text per top-level source block, white space removed
+	var tops []int
 	for _, e := range exp {
-		offs = append(offs, esb.Len())
+		if len(tops) == 0 || tops[len(tops)-1] != e.top {
+			tops = append(tops, e.top)
+			units = append(units, "")
+		}
+		u := &units[len(units)-1]
 		switch e.kind {
 		case "h", "p":
-			esb.WriteString(squeeze(e.cs))
+			*u += squeeze(e.cs)
 		case "code":
-			esb.WriteString(squeeze(strChars(e.line, 0)))
+			*u += squeeze(strChars(e.line, 0))
 		case "tbl":
 			for _, r := range e.tbl.cells {
 				for _, c := range r {
-					esb.WriteString(squeeze(c))
+					*u += squeeze(c)
 				}
 			}
 		}
@@ -302,63 +349,100 @@ func judge(res *kit.Result, exp []xblk, act []ablk, tablesOff bool) {
 			}
 		}
 	}
-	if es, as := esb.String(), asb.String(); es != as {
-		k := 0
-		for k < len(es) && k < len(as) && es[k] == as[k] {
-			k++
-		}
-		suf := 0
-		for suf < len(es) && suf < len(as) && es[len(es)-1-suf] == as[len(as)-1-suf] {
-			suf++
-		}
-		// the differing region of the expected text under every minimal explanation: an insertion such as
-		// "&" "alpha" -> "&amp;alpha" may sit at offset 1 (after "&") or 2 (inside "alpha"); all blocks touching
-		// [lo,hi] are named, so that the attribution does not depend on which explanation a prefix scan happens to pick
-		lo, hi := k, len(es)-suf
-		if lo > hi {
-			lo, hi = hi, lo
-		}
-		t0, t1 := -1, -1
-		for i, o := range offs {
-			end := esb.Len()
-			if i+1 < len(offs) {
-				end = offs[i+1]
+	if as := asb.String(); strings.Join(units, "") != as {
+		// Which blocks are to blame? The blocks whose text is not found, in order, in the document (those the best
+		// in-order placement of whole block texts has to leave out), and for text nobody expected the blocks on
+		// both sides of it. One failure each, so that every one is attributed on its own.
+		at := placeUnits(units, as)
+		n := 0
+		fail := func(format string, a ...interface{}) {
+			if n++; n <= 8 {
+				res.Fail("C19.M1", format, a...)
 			}
-			touches := o < hi && end > lo // a non-empty stretch of expected text [lo,hi) that the document lacks or alters
-			if k >= len(es)-suf {         // nothing expected is missing: an insertion somewhere in [lo,hi]
-				touches = o <= hi && end >= lo
-			}
-			if touches {
-				if t0 < 0 || exp[i].top < t0 {
-					t0 = exp[i].top
+		}
+		show := func(s string) string { return trunc(strings.ToValidUTF8(s, "?"), 80) }
+		prevEnd, prevTop := 0, -1
+		var pending []int
+		cur := 0 // index of the unit the gap ends at (len(units) for the tail)
+		flush := func(gap string, top int) {
+			switch {
+			case len(pending) > 0:
+				for _, i := range pending {
+					// a neighbour with the very same text may be the one that is really missing
+					lo, hi := i, i
+					for lo > 0 && (units[lo-1] == "" || units[lo-1] == units[i]) {
+						lo--
+					}
+					for hi+1 < len(units) && (units[hi+1] == "" || units[hi+1] == units[i]) {
+						hi++
+					}
+					for units[lo] == "" {
+						lo++
+					}
+					for units[hi] == "" {
+						hi--
+					}
+					where := "@" + itoa(tops[i])
+					if lo != hi {
+						where = "@" + itoa(tops[lo]) + "-" + itoa(tops[hi])
+					}
+					fail("%s visible text differs: the text of block %d, %q, is not in the document at its place; there the document has %q", where, tops[i], show(units[i]), show(gap))
 				}
-				if exp[i].top > t1 {
-					t1 = exp[i].top
+			case gap != "":
+				// a unit placed at the first of several possible offsets ("alpha" inside the remains of the altered
+				// block before it) leaves those remains behind it: the nearest unplaced block on either side is
+				// named as well
+				lo, hi := prevTop, top
+				for j := cur - 1; j >= 0; j-- {
+					if units[j] != "" && at[j] < 0 {
+						if lo < 0 || tops[j] < lo {
+							lo = tops[j]
+						}
+						break
+					}
+				}
+				for j := cur; j >= 0 && j < len(units); j++ {
+					if units[j] != "" && at[j] < 0 {
+						if tops[j] > hi {
+							hi = tops[j]
+						}
+						break
+					}
+				}
+				if lo < 0 {
+					lo = hi
+				}
+				if hi < 0 {
+					hi = lo
+				}
+				if lo < 0 {
+					lo, hi = 0, 0
+				}
+				if lo == hi {
+					fail("@%d visible text differs: the document has text nobody wrote, %q, next to this block", lo, show(gap))
+				} else {
+					fail("@%d-%d visible text differs: the document has text nobody wrote, %q, between these blocks", lo, hi, show(gap))
 				}
 			}
+			pending = pending[:0]
 		}
-		if t0 < 0 {
-			t0, t1 = 0, 0
-		}
-		at := "@" + itoa(t0)
-		if t1 != t0 {
-			at += "-" + itoa(t1)
-		}
-		from := k - 20
-		if from < 0 {
-			from = 0
-		}
-		cut := func(s string) string {
-			to := k + 30
-			if to > len(s) {
-				to = len(s)
+		for i, u := range units {
+			if u == "" {
+				continue
 			}
-			if from > len(s) {
-				return ""
+			if at[i] < 0 {
+				pending = append(pending, i)
+				continue
 			}
-			return strings.ToValidUTF8(s[from:to], "?")
+			cur = i
+			flush(as[prevEnd:at[i]], tops[i])
+			prevEnd, prevTop = at[i]+len(u), tops[i]
 		}
-		res.Fail("C19.M1", "%s visible text differs at offset %d: expected …%q…, document has …%q…", at, k, cut(es), cut(as))
+		cur = len(units)
+		flush(as[prevEnd:], -1)
+		if n == 0 { // cannot happen (the texts differ), but never let a difference pass silently
+			res.Fail("C19.M1", "@0 visible text differs: expected %q, document has %q", show(strings.Join(units, "")), show(as))
+		}
 	}
 
 	// ---- M2..M6: aligned walk
@@ -507,4 +591,52 @@ func missingFlags(exp, act []ch) string {
 		i++
 		j++
 	}
+}
+
+// placeUnits finds the in-order, non-overlapping placement of whole unit texts in s that covers the most text
+// (ties: place rather than skip) and returns the byte offset of every placed unit, -1 for the units left out.
+// Placing a unit at its earliest possible offset is never worse than placing it later, so only that is tried.
+func placeUnits(units []string, s string) []int {
+	type key struct{ i, pos int }
+	memo := map[key]int{}
+	next := func(i, pos int) int {
+		if k := strings.Index(s[pos:], units[i]); k >= 0 {
+			return pos + k
+		}
+		return -1
+	}
+	var f func(i, pos int) int
+	f = func(i, pos int) int {
+		if i == len(units) {
+			return 0
+		}
+		if units[i] == "" {
+			return f(i+1, pos)
+		}
+		k := key{i, pos}
+		if v, ok := memo[k]; ok {
+			return v
+		}
+		best := f(i+1, pos)
+		if q := next(i, pos); q >= 0 {
+			if v := len(units[i]) + f(i+1, q+len(units[i])); v >= best {
+				best = v
+			}
+		}
+		memo[k] = best
+		return best
+	}
+	at := make([]int, len(units))
+	pos := 0
+	for i := range units {
+		at[i] = -1
+		if units[i] == "" {
+			continue
+		}
+		if q := next(i, pos); q >= 0 && len(units[i])+f(i+1, q+len(units[i])) >= f(i+1, pos) {
+			at[i] = q
+			pos = q + len(units[i])
+		}
+	}
+	return at
 }
